@@ -26,7 +26,12 @@ class Operator(Expr):
         # get around some tricky too-fancy __new__/__init__ design in
         # algebra.py, for now.  It would be nicer to make the classes
         # in algebra.py pass operands here.
-        if operands is not None:
+        #
+        # A simplifying __new__ may return an existing, already
+        # initialised node of the same class (e.g. outer(1, outer(u, v))
+        # returns outer(u, v)); Python then calls __init__ on it again
+        # and its operands must not be replaced.
+        if operands is not None and not hasattr(self, "ufl_operands"):
             self.ufl_operands = operands
 
     def _ufl_expr_reconstruct_(self, *operands):
